@@ -24,3 +24,6 @@ def check(ck):
     ck.rule("C01.R10", "bindings: every symbol a function uses has its own watcher (rules are distinct per symbol), and which symbol "
                        "is bound to which object is visible in the digest", 4)
     ck.run(H.check_bindings, ck, "C01.R10")
+    # edits delivered inside a running process reach the results only through the version updater
+    ck.run(H.check_update_protocol, ck, "C01.R12")
+    H.fail_closed(ck)
